@@ -223,28 +223,49 @@ def tables(ctx, R="R-C11-dispatch-tables"):
 def stream_guards(ctx, R="R-C11-stream-guards"):
     prog = ctx.prog
     f = prog.func("util.read_signal")
-    body = [s for s in f.node.body if not (isinstance(s, ast.Expr) and isinstance(s.value, ast.Constant))]
-    first = body[0]
-    ok = isinstance(first, ast.If) and astq.eq_text(first.test, "notisinstance(rfilename,str)")
-    ctx.check(ok, R, f, first, "streams are recognised first (not isinstance(rfilename, str))", "read_signal does not begin with the stream test")
-    if not ok:
-        return
-    rs = [n for n in ast.walk(ast.Module(body=first.body, type_ignores=[])) if isinstance(n, ast.Raise)]
-    pm = astq.parents(f)
-    conds = {}
-    for r in rs:
-        g = [astq.text(a.test).replace(" ", "") for a in astq.ancestors(pm, r) if isinstance(a, ast.If) and a is not first]
-        conds[g[0] if g else ""] = astq.raise_type(prog, f, r)
-    ctx.check(conds.get("force_asisNone") == "ValueError", R, f, first, "a stream without force_as raises ValueError", "stream without force_as: %s" % conds)
-    kk = [k for k in conds if k.startswith("force_asin") and "'kaldi'" in k and "'table'" in k]
-    ctx.check(bool(kk) and conds[kk[0]] == "ValueError", R, f, first, "a stream with a Kaldi kind raises ValueError", "stream with kaldi kinds: %s" % conds)
+    rf, fa = f.params[0], "force_as"
+    ev = SymEval(prog, f, inline_props=False).run()
+    is_str = S.call("isinstance", S.sym(rf), S.sym("str"))
+
+    def conj(g):
+        return list(g.args) if g.op == "and" else [g]
+
+    def stream_side(g):
+        return any(x == S.enot(is_str) or x == S.E("not", is_str) for x in conj(g))
+    vals = {}
+    for g, r in ev.raises:
+        if not stream_side(g):
+            continue
+        cs = conj(g)
+        key = None
+        if any(x == S.cmp("is", S.sym(fa), S.NONE) for x in cs):
+            key = "none"
+        for x in cs:
+            if x.op == "cmp" and x.args[0] == "in" and x.args[1] == S.sym(fa):
+                lits = {str(a_.value) for a_ in x.args[2].args[1:] if a_.is_const} if x.args[2].op == "call" else set()
+                if {"kaldi", "table"} <= lits:
+                    key = "kaldi"
+        if key:
+            vals[key] = astq.raise_type(prog, f, r)
+    ctx.need(any(stream_side(g) for g, r in ev.raises), R, "no raise on the stream side (not isinstance(rfilename, str)) of read_signal")
+    ctx.check(vals.get("none") == "ValueError", R, f, f.node, "a stream without force_as raises ValueError", "stream without force_as: %s" % vals)
+    ctx.check(vals.get("kaldi") == "ValueError", R, f, f.node, "a stream with a Kaldi kind raises ValueError", "stream with kaldi kinds: %s" % vals)
     # inference only for str without force_as
-    ok = len(first.orelse) == 1 and isinstance(first.orelse[0], ast.If) and astq.eq_text(first.orelse[0].test, "force_asisNone") and \
-        astq.eq_text(first.orelse[0].body[0], "force_as=_infer_force_as_from_rfilename(rfilename)")
-    ctx.check(ok, R, f, first, "the type is inferred from the name only when force_as is not given")
+    infers = [c for c in astq.func_calls(f) if getattr(prog.resolve(f.module, c.func, f), "name", "") == "_infer_force_as_from_rfilename"]
+    ctx.need(len(infers) == 1, R, "call of the suffix inference not found in read_signal")
+    pm = astq.parents(f)
+    st = astq.enclosing_stmt(pm, infers[0])
+    g = ev.guard_of(st)
+    cs = conj(g)
+    ok = any(x == is_str for x in cs) and any(x == S.cmp("is", S.sym(fa), S.NONE) for x in cs) and isinstance(st, ast.Assign) and astq.is_name(st.targets[0], fa) \
+        and [astq.text(a_) for a_ in infers[0].args] == [rf]
+    ctx.check(ok, R, f, st, "the type is inferred from the name only when force_as is not given (and the source is a name)",
+              "the suffix inference runs under %s" % S.show(g)[:100])
     cfg = CFG(f.node)
     dom = cfg.dominators()
-    nf = cfg.node(first)
+    firsts = [n for n in f.node.body if isinstance(n, ast.If) and any(isinstance(x, ast.Call) and astq.is_name(x.func, "isinstance") for x in ast.walk(n.test))]
+    ctx.need(firsts, R, "the stream / name test not found at the top of read_signal")
+    nf = cfg.node(firsts[0])
     for c in astq.func_calls(f):
         t = prog.resolve(f.module, c.func, f)
         if isinstance(t, FunctionInfo) and t.name.endswith("_read_signal"):
